@@ -214,7 +214,7 @@ func corpusMain(args []string) error {
 		u := units[i]
 		_ = os.MkdirAll(u.dir, 0o755)
 		_ = os.WriteFile(filepath.Join(u.dir, "g.peg"), []byte(u.sc.Text), 0o644)
-		ctx, cancel := context.WithTimeout(context.Background(), 60*time.Second)
+		ctx, cancel := context.WithTimeout(context.Background(), 300*time.Second)
 		defer cancel()
 		a := append(optFlags(u.opt), "-output", "g.go", "g.peg")
 		c := exec.CommandContext(ctx, *peg, a...)
@@ -259,6 +259,11 @@ func corpusMain(args []string) error {
 			_ = os.Remove(filepath.Join(u.dir, "g.go"))
 		}
 	})
+	for _, u := range units {
+		if u.gen.Exit == -1 && !u.gen.Timeout {
+			return fmt.Errorf("peg run for %s was killed or could not start (overload?): no observation", u.pkg)
+		}
+	}
 	// 2. compile every package; a package that does not compile is an observation
 	pkgRe := regexp.MustCompile(`(?m)^# corpus/(\S+)`)
 	good := map[string]bool{}
